@@ -832,7 +832,7 @@ def _d_create_is_fresh(chk):
 def _f_falsy_defaults(chk):
     """`value or default` on a NUMERIC parameter treats the legitimate value 0 as "not given": the quantity computed for 0 is then
     filed (or computed) under the default's identity.  Every `p or <expr>` in the package whose first operand is a parameter
-    annotated float / int (Optional included) must be written `p if p is not None else <expr>`.  (Strings, tuples and payload
+    annotated float (Optional included; pure counts are left alone: 0 workers / 0 steps is no value) must be written `p if p is not None else <expr>`.  (Strings, tuples and payload
     objects, for which emptiness means absence, are not concerned.)"""
     n = 0
     for m in ri.all_modules():
@@ -845,7 +845,8 @@ def _f_falsy_defaults(chk):
                     n += 1
                     a = ann[b.values[0].id].replace("Optional[", "").replace("]", "").replace("'", "").replace('"', "")
                     kinds = {t.strip() for t in a.replace("|", ",").split(",")}
-                    numeric = bool(kinds & {"float", "int", "np.floating", "np.integer", "complex"}) and not (kinds - {"float", "int", "None", "np.floating", "np.integer", "complex"})
+                    # real-valued parameters only: for a count (`n_workers or cpu_count()`, `steps or 1000`) zero is usually no value at all and the idiom is harmless
+                    numeric = bool(kinds & {"float", "np.floating", "complex"}) and not (kinds - {"float", "int", "None", "np.floating", "np.integer", "complex"})
                     chk.check(not numeric, "C20.f", f"{m.name}::{q}[{b.values[0].id} or ...]",
                               f"`{ast.unparse(b)[:80]}`: {b.values[0].id} is a numeric parameter ({ann[b.values[0].id]}), so the value 0 is replaced by the default: the result for 0 "
                               f"is computed / stored as if the default had been asked for", sample=f"{q}: `{ast.unparse(b)[:60]}` on a non-numeric parameter", nontrivial=numeric)
